@@ -45,15 +45,42 @@ def c08_jobs(tier, seed):
         J.append(Job("c08_itv", {"op": op, "range": R}, what="z_interval %s, bounds in +-%d, values in 12-bit two's complement" % (op, R), budget=900))
     for op in ("shl", "ashr", "lshr"):
         J.append(Job("c08_itv", {"op": op, "range": R, "krange": 4 if tier == "quick" else 6}, what="z_interval %s" % op, budget=900))
+    # the other scalar abstractions (c08_scal harness)
+    ARI = ("add", "sub", "mul", "div", "udiv", "srem", "urem", "and", "or", "xor", "shl", "lshr", "ashr")
+    LAT = ("join", "meet", "leq")
+    names = {"cg": "congruence<z_number>", "sg": "sign<z_number>", "ct": "constant<z_number>", "di": "dis_interval<z_number>", "ic": "interval_congruence<z_number>", "bv": "boolean_value"}
+    q = tier == "quick"
+    NONLIN = ("mul", "div", "udiv", "srem", "urem", "and", "or", "xor", "shl", "lshr", "ashr")
+    for op in ARI + ("neg",) + LAT + ("widen", "narrow"):
+        args = {"kind": "cg", "op": op}
+        if q:
+            args.update({"maxmod": 3, "brange": 3} if op in NONLIN else {"maxmod": 4, "brange": 4})
+        J.append(Job("c08_scal", args, what="%s %s: moduli and residues concretised over their range, members symbolic" % (names["cg"], op), budget=600 if q else 2400, soft=not q))
+    for op in ARI + LAT + ("cst",):
+        J.append(Job("c08_scal", {"kind": "sg", "op": op}, what="%s %s: all 8 x 8 signs, members symbolic" % (names["sg"], op), budget=300))
+    for op in ARI + LAT + ("widen", "narrow"):
+        J.append(Job("c08_scal", {"kind": "ct", "op": op}, what="%s %s: symbolic constants" % (names["ct"], op), budget=300))
+    for op in ARI + ("neg",) + LAT + ("widen", "narrow"):
+        args = {"kind": "di", "op": op, "brange": 2 if q else 4}
+        if q:
+            args["fin"] = 1
+        J.append(Job("c08_scal", args, what="%s %s: up to 2 disjuncts with symbolic bounds%s" % (names["di"], op, " (finite shapes)" if q else ""), budget=600 if q else 2400, soft=not q))
+    for op in ("add", "mul", "div", "join", "meet") if q else ("add", "sub", "mul", "div", "join", "meet"):
+        args = {"kind": "ic", "op": op, "maxmod": 2 if q else 3, "brange": 2 if q else 4}
+        if q:
+            args["fin"] = 1
+        J.append(Job("c08_scal", args, what="%s %s: reduction keeps the members; symbolic interval bounds, small moduli" % (names["ic"], op), budget=600 if q else 2400, soft=not q))
+    J.append(Job("c08_scal", {"kind": "bv", "op": "all"}, what="boolean_value: And Or Xor Negate join meet widening inclusion over all 4 x 4 values", budget=120))
     return J
 
 
 PROPS["C08"] = dict(
     jobs=c08_jobs,
-    explanation="Every operation of ikos::interval<z_number>/bound<z_number> (templates of interval_impl.hpp and the z_number specialisations of lib/interval.cpp, compiled unmodified) is executed symbolically for operands of symbolic shape and symbolic bounds; the solver decides op(x,y) in gamma(a op# b) for all x in gamma(a), y in gamma(b), and tightness of + - neg * join meet.",
-    bounds={"quick": "interval bounds unbounded for + - neg * and lattice ops; +-8 for / rem bitwise shifts (shift amount <= 4); bitwise values in 12-bit two's complement",
-            "thorough": "as quick with +-24 and shift amount <= 6"},
-    outside=["interval<q_number> (rationals): no symbolic rational class", "bounds beyond the stated ranges for division/bitwise/shift operations"],
+    explanation="Every operation of ikos::interval<z_number>/bound<z_number> (templates of interval_impl.hpp and the z_number specialisations of lib/interval.cpp, compiled unmodified) is executed symbolically for operands of symbolic shape and symbolic bounds; the solver decides op(x,y) in gamma(a op# b) for all x in gamma(a), y in gamma(b), and tightness of + - neg * join meet. "
+                "The same soundness statement (and join / meet / widening / narrowing / inclusion facts) is decided for congruence, interval_congruence (reduction keeps the members), sign, constant, dis_interval and boolean_value: the shape of the abstract operands (sign, modulus and residue, number of disjuncts) is concretised by the solver over its whole range, constants and interval bounds stay symbolic, the members x and y are always symbolic.",
+    bounds={"quick": "interval bounds unbounded for + - neg * and lattice ops; +-8 for / rem bitwise shifts (shift amount <= 4); bitwise values in 12-bit two's complement; congruences: moduli 0..4 and constants in +-4 (0..3 / +-3 for non-linear operations, members in +-24); signs: all 64 pairs; constants: unbounded (non-linear ops +-64); dis_interval: <= 2 disjuncts of finite shape with bounds in +-2 (unbounded for + - neg and lattice ops); interval_congruence: finite intervals in +-2, moduli 0..2",
+            "thorough": "as quick with +-24 and shift amount <= 6; congruence moduli 0..6; dis_interval / interval_congruence with half lines and bounds in +-4 (soft: budgeted)"},
+    outside=["interval<q_number> (rationals): no symbolic rational class", "bounds beyond the stated ranges for division/bitwise/shift operations", "congruence moduli above 6 (gcd loops need concrete moduli)", "small_range (a counter abstraction without numeric members; its increment is exercised by C15)"],
     assumptions=E2_ASSUME,
 )
 NA = {}
@@ -551,8 +578,8 @@ PROPS["C02"] = dict(
     assumptions=E2_ASSUME)
 
 # ---------------------------------------------------------------- C17 (transformations), C18 (liveness, assertion crawler)
-XF_PROGS = ["deadcode", "chain", "sumodd", "crawl", "straight", "diamond", "loop", "loop2", "nested", "selfloop", "irreducible", "unreach", "ops", "ops2", "bools", "bools2", "bsel2", "bloop", "noexit"]
-XF_SYM = dict(BWD_SYM, deadcode="0,1,3", chain="0,1,3", sumodd="0,1", crawl="0,1")
+XF_PROGS = ["deadcode", "chain", "inplace", "sumodd", "crawl", "straight", "diamond", "loop", "loop2", "nested", "selfloop", "irreducible", "unreach", "ops", "ops2", "bools", "bools2", "bsel2", "bloop", "noexit"]
+XF_SYM = dict(BWD_SYM, deadcode="0,1,3", chain="0,1,3", inplace="0,1", sumodd="0,1", crawl="0,1")
 
 
 def xf_job(prog, mode, d=None, dom=1, blocks=10, budget=400):
@@ -673,6 +700,8 @@ ARR_CORE = [
     "init,storec.1,asg,loadb.1,storec.1,loadb.1,loadc.1", "init,storec.0,cpy,storec.0,join,loadc.0", "initv,idx,storev,loads", "init,storec.0,storec.1,storec.0,loadc.0,loadc.1",
     "init,idx.1.2,stores,loadc.0,loadc.1", "init,storec.2,idx,stores,cpy,storec.2,wid,loadc.2", "init,idx,storev,idx,loads", "init,storec.1,idx,loads,asg,idx,stores,loadb.1,loadc.1",
     "init,range.1.2,idx.0.1,stores,loadc.1", "storec.0,loadc.0", "init,storec.0,swp,init,storec.0,join,loadc.0,loadc.1",
+    # two distinct value variables: the relation between the summary and the first one must not survive a store of the second
+    "initv,idx,storew,loads,loadc.0", "initv,rangew.0.1,loadc.1,loadc.2", "initv,idx.1.2,storew,idx,loads",
 ]
 ARR_PARAMS = [{}, {"smashable": "false", "nonzero": "false", "maxsmash": 2, "maxsize": 2}, {"smashable": "true", "nonzero": "false", "maxsmash": 2, "maxsize": 3},
               {"smashable": "true", "nonzero": "true", "maxsmash": 1, "maxsize": 2}, {"smashable": "false", "nonzero": "true", "maxsmash": 64, "maxsize": 64}]
@@ -686,9 +715,9 @@ def arr_histories(rng, n):
         s = [rng.choice(["init", "initv", "init"])]
         has_idx = has_b = False
         for _ in range(k):
-            ops = ["storec.0", "storec.1", "storec.2", "idx", "idx.0.1", "idx.1.2", "range.0.1", "range.1.2", "range.0.2", "loadc.0", "loadc.1", "loadc.2", "asg", "cpy", "swp", "join", "wid"]
+            ops = ["storec.0", "storec.1", "storec.2", "idx", "idx.0.1", "idx.1.2", "range.0.1", "range.1.2", "range.0.2", "rangew.0.1", "rangew.1.2", "loadc.0", "loadc.1", "loadc.2", "asg", "cpy", "swp", "join", "wid"]
             if has_idx:
-                ops += ["stores", "storev", "loads", "stores", "loads"]
+                ops += ["stores", "storev", "storew", "loads", "stores", "loads"]
             if has_b:
                 ops += ["asgba", "loadb.0", "loadb.1"]
             o = rng.choice(ops)
@@ -734,7 +763,7 @@ DOMS[27] = ("array_adaptive_domain<split_dbm>", {})
 PROPS["C14"] = dict(
     jobs=c14_jobs,
     explanation="array_smashing<Base> and array_adaptive_domain<Base> (Base = intervals, zones) are driven by histories of array_init, strong/weak array_store with constant and symbolic indices, array_store_range, array_assign, join, widening and array_load, next to a concrete word-level array (cells = solver terms, symbolic index = a symbolic cell number); "
-                "after every load z3 decides that the concrete value read is in at(lhs), and after every operation that the state is not bottom, for all stored values, initial contents and index values; every history is run under several array_adaptive parameter settings (smashable or not, smashing at non-zero offsets, small cell / size limits).",
+                "after every load z3 decides that the concrete value read is in at(lhs) and that every exported constraint over the scalar variables (index, loaded value, two value variables) holds, and after every operation that the state is not bottom, for all stored values, initial contents and index values; every history is run under several array_adaptive parameter settings (smashable or not, smashing at non-zero offsets, small cell / size limits).",
     bounds={"quick": "arrays of 1 and 3 cells of 4 bytes; 16 curated + 20 generated histories (<= 9 operations); array_adaptive<intervals> under 5 parameter settings for the curated histories, one setting otherwise; is_strong_update only for one-cell arrays (the documented contract)",
             "thorough": "1-4 cells, 400 generated histories, all parameter settings on both adaptive domains"},
     outside=["arrays with non-uniform element sizes (outside the documented word-level assumption)", "arrays of more than 4 cells", "Boolean arrays, arrays inside regions", "backward array operations"],
@@ -856,6 +885,10 @@ RGN_CORE = [
     "init.0,make.0.0,make.1.0,st.0.0,st.1.0,sel.2.0.0.0.1.0,q.2,st.2.0,ld.0.0,ld.1.0",    # select between two references
     "init.0,make.0.0,st.0.0,seln.1.0.0.0,q.1,asm.nn.1,st.1.0,ld.0.0",                     # select between a reference and null
     "init.0,make.0.0,st.0.0,seln.0.0.0.0,q.0,asm.nn.0,ld.0.0",
+    # ordering constraints between references with offsets (p REL q + k), also negated, after the base domain knows the distance
+    "init.0,make.0.0,gepc.0.1.0.0.8,gepc.0.2.0.0.16,asmo.ge.1.2.-8,st.1.0,ld.1.0", "init.0,make.0.0,gepc.0.1.0.0.8,asmo.gt.1.0.s,st.0.0,r2i.1.0,ld.0.0",
+    "init.0,make.0.0,gepc.0.1.0.0.8,asmo.le.0.1.s,asmo.lt.1.0.4.neg,st.0.0,ld.0.0", "init.0,make.0.0,idx.0.8,geps.0.1.0.0,asmo.eq.1.0.s,asmo.ne.1.0.4,st.1.0,ld.1.0",
+    "init.0,make.0.0,gepc.0.1.0.0.4,asmo.ge.0.1.s.neg,asmo.le.1.0.s.neg,st.0.0,ld.0.0",
 ]
 RGN_PARAMS = [{}, {"deref": "true"}, {"allocs": "false", "dealloc": "false", "tags": "false"}, {"skipunk": "false", "deref": "true"}]
 RGN_BASE = {1: "interval_domain", 2: "split_dbm_domain (zones)", 3: "flat_boolean_numerical_domain<interval_domain>", 4: "sign_constant_domain"}
@@ -930,8 +963,11 @@ def rgn_histories(rng, n):
             elif o == "asm":
                 p = rng.choice(live)
                 others = [x for x in live if x != p]
-                kind = rng.choice(["nn", "eq", "ne"]) if others else "nn"
-                s.append("asm.nn.%d" % p if kind == "nn" else "asm.%s.%d.%d" % (kind, p, rng.choice(others)))
+                kind = rng.choice(["nn", "eq", "ne", "o", "o"]) if others else "nn"
+                if kind == "o":
+                    s.append("asmo.%s.%d.%d.%s%s" % (rng.choice(["eq", "ne", "lt", "le", "gt", "ge"]), p, rng.choice(others), rng.choice(["s", "0", "4", "-8"]), rng.choice(["", ".neg"])))
+                else:
+                    s.append("asm.nn.%d" % p if kind == "nn" else "asm.%s.%d.%d" % (kind, p, rng.choice(others)))
             elif o == "str":
                 holders = [p for p in reg if reg[p] == 2]
                 if not holders:
@@ -979,7 +1015,7 @@ def c15_jobs(tier, seed):
 
 PROPS["C15"] = dict(
     jobs=c15_jobs,
-    explanation="region_domain<Params> over four base domains is driven by histories of region_init, ref_make, ref_gep (constant and symbolic offsets, within and across regions), ref_store / ref_load of integers and of references, ref_free, ref_assume, ref_to_int / int_to_ref, select_ref, region_copy, join and widening, next to a concrete memory "
+    explanation="region_domain<Params> over four base domains is driven by histories of region_init, ref_make, ref_gep (constant and symbolic offsets, within and across regions), ref_store / ref_load of integers and of references, ref_free, ref_assume (null tests, equalities and orderings p REL q + k with constant and symbolic offsets, and their negations), ref_to_int / int_to_ref, select_ref, region_copy, join and widening, next to a concrete memory "
                 "(per region the list of (address, value) writes; objects are symbolic, pairwise distant, non-null base addresses; a reference is an address plus its allocation site); z3 decides after every load that the value read from a previously written cell is in at(lhs), after every reference load / query that a definite is_null_ref answer is right and that a reported set of allocation sites contains the actual one, "
                 "that ref_to_int covers the address, and that no operation turns a reachable state into bottom - for all stored values, base addresses, offsets and join choices.",
     bounds={"quick": "3 reference variables, 2 integer regions + 1 region of references, 23 curated + 40 generated histories (<= 12 operations), base domains intervals / zones / flat Boolean x intervals / sign-constant, 4 region_domain_params settings on the curated histories (one setting otherwise), offsets in [-4, 32]", "thorough": "600 generated histories, every base domain and parameter setting"},
